@@ -1,5 +1,6 @@
 // Instrumented TU: the real qs_domain / qs_agent over SimMutex and the real spinlocks.
 #include <new>
+#include <type_traits>
 #include <frg/spinlock.hpp>
 #include <frg/qs.hpp>
 #include "../../sim/simrt.hpp"
@@ -9,12 +10,22 @@ using sim::SimMutex;
 
 // real spinlocks, with a per-task hold count so that the simulator knows who holds what
 extern "C" uint32_t simh_lock_age(); // harness: 0, or a counter value just below 2^32 ("aged" ticket lock)
+#ifndef SIM_TICKET_LAYOUT_PROBE
+#define SIM_TICKET_LAYOUT_PROBE
+static inline int sim_ticket_layout_ok() { // fresh lock + one lock()/unlock() pair == two 32-bit counters at 1 ?
+	if (sizeof(frg::ticket_spinlock) != 8) return 0;
+	alignas(8) unsigned char buf[8]; auto l = new (buf) frg::ticket_spinlock();
+	l->lock(); l->unlock();
+	unsigned int w[2]; __builtin_memcpy(w, buf, 8);
+	return w[0] == 1 && w[1] == 1;
+}
+#endif
 template <class L>
 struct Counted : L {
 	Counted() {
 		// A ticket lock that has been acquired ~2^32 times has both counters near the wrap; instead of replaying that
 		// history the run may start from that state. Relies on the lock being exactly two 32-bit counters (checked by size).
-		if constexpr (sizeof(L) == 8) { uint32_t a = simh_lock_age(); if (a) { uint32_t both[2] = {a, a}; __builtin_memcpy(static_cast<L *>(this), both, 8); } }
+		if constexpr (sizeof(L) == 8 && std::is_base_of_v<frg::ticket_spinlock, L>) { static const int ok = sim_ticket_layout_ok(); uint32_t a = ok ? simh_lock_age() : 0; if (a) { uint32_t both[2] = {a, a}; __builtin_memcpy(static_cast<L *>(this), both, 8); } }
 	}
 	void lock() { L::lock(); sim::note_lock(+1); }
 	void unlock() { sim::note_lock(-1); L::unlock(); }
